@@ -1,6 +1,6 @@
 """C06, second pass — tie of the GMRF prior's operators to `gmrfD` / `gmrfPrec` of lean/CuqiVerif/Model/C06_gmrf.lean (which are
 C20's exact finite-difference operators): `GMRF._diff_op`, `prec * GMRF._prec_op` compared EXACTLY (integers / dyadics) with the
-model; leaf relation of the factor the sampler receives, `sqrtprecᵀ sqrtprec = prec·DᵀD` (zero BC 1e-12; periodic / neumann: the code
+model; leaf relation of the factor the sampler receives, `sqrtprecᵀ sqrtprec = prec·DᵀD` (zero BC 1e-10; periodic / neumann: the code
 adds sqrt(eps)·I before factorising, 1e-6); oracle (implementation only): −2(logpdf(x) − logpdf(mean)) = (x−μ)ᵀ(prec·DᵀD)(x−μ)
 with D the documented stencil evaluated by the harness."""
 import numpy as np
@@ -47,6 +47,7 @@ def run_gmrf(ctx, cuqi, r, thorough):
             recs.append({"order": order, "bc": bc, "n": n, "prec": prec, "D": D, "P": Pi, "L": L, "v": x - mean, "quad": quadform})
             lines.append(f"gmrfprec {order} {bc} {n} {q(prec)}")
     outs = ctx.lean.drive(lines)
+    dev = {"factor_zero_bc": 0.0, "factor_improper_bc": 0.0, "logpdf_rel": 0.0}
     for rec, o in zip(recs, outs):
         desc = {k: rec[k] for k in ("order", "bc", "n", "prec")}
         key = f"gmrf:order{rec['order']}:{rec['bc']}"
@@ -62,7 +63,7 @@ def run_gmrf(ctx, cuqi, r, thorough):
                 ctx.disagree(key + ":D", desc, Dm.tolist(), rec["D"].tolist(), "GMRF._diff_op vs the model's difference operator (exact)"); bad.append(key + ":D")
             if Pm.shape != rec["P"].shape or not np.array_equal(Pm, rec["P"]):
                 ctx.disagree(key + ":P", desc, Pm.tolist(), rec["P"].tolist(), "prec * GMRF._prec_op vs the model's prec·DᵀD (exact)"); bad.append(key + ":P")
-            tolL = 1e-12 if rec["bc"] == "zero" else 1e-6
+            tolL = 1e-10 if rec["bc"] == "zero" else 1e-6
             if base.relerr(rec["L"].T @ rec["L"], Pm) > tolL:
                 ctx.disagree(key + ":factor", desc, Pm.tolist(), (rec["L"].T @ rec["L"]).tolist(), "GMRF.sqrtprecᵀ sqrtprec vs prec·DᵀD"); bad.append(key + ":factor")
         # oracle: the density the GMRF evaluates is that of N(mean, (prec·DᵀD)⁻¹) with the documented stencil (order 1 written out here;
@@ -71,11 +72,15 @@ def run_gmrf(ctx, cuqi, r, thorough):
         Pd = rec["prec"] * (Ds.T @ Ds) if Ds is not None else rec["P"]
         want = float(rec["v"] @ Pd @ rec["v"])
         fails = []
+        dev["logpdf_rel"] = max(dev["logpdf_rel"], abs(want - rec["quad"]) / (1.0 + abs(want)))
+        kdev = "factor_zero_bc" if rec["bc"] == "zero" else "factor_improper_bc"
+        dev[kdev] = max(dev[kdev], base._relerr0(rec["L"].T @ rec["L"], Pd))
         if abs(want - rec["quad"]) > 1e-9 * (1.0 + abs(want)):
             fails.append(("logpdf", want, rec["quad"], "GMRF.logpdf is not the density of N(mean, (prec·DᵀD)⁻¹)"))
-        tolL = 1e-12 if rec["bc"] == "zero" else 1e-6
+        tolL = 1e-10 if rec["bc"] == "zero" else 1e-6
         if base.relerr(rec["L"].T @ rec["L"], Pd) > tolL:
             fails.append(("sqrtprec", Pd.tolist(), (rec["L"].T @ rec["L"]).tolist(), "GMRF.sqrtprec does not square to prec·DᵀD"))
         for nm, w, g_, what in fails:
             for k_ in (bad or [key + ":" + nm]):
                 ctx.fail(k_, desc, w, g_, what)
+    ctx.extra_cov["gmrf_deviation_max (tolerances: zero BC 1e-10, improper 1e-6, logpdf 1e-9)"] = dev
